@@ -2664,7 +2664,8 @@ where
         let before = inp.save();
         match self.parser.go::<M>(inp) {
             Ok(out) => {
-                inp.rewind(before);
+                // Only the position is reset: errors emitted by the parser belong to the output we return
+                inp.rewind_input(before);
                 Ok(out)
             }
             Err(()) => Err(()),
